@@ -5,6 +5,7 @@ import (
 	"flag"
 	"fmt"
 	"os"
+	"os/exec"
 	"path/filepath"
 	"runtime/debug"
 	"sort"
@@ -199,11 +200,98 @@ func main() {
 		if *jsonOut != "" {
 			writeJSON(*jsonOut, map[string]any{"property": id, "obligations": rep.Obligs, "violations": len(viol)})
 		}
+		var extra map[string]any
+		if *tier == "thorough" && !*noEvidence {
+			var extraViol int
+			extra, extraViol = thoroughExtras(abs, id, *known, seed)
+			if extraViol > 0 && len(viol) == 0 {
+				fmt.Printf("VIOLATION property=%s replay=%s\n", id, replay)
+				exit = 1
+			}
+		}
 		if !*noEvidence {
-			writeEvidence(filepath.Join(*outDir, id+".json"), spec, rep, p, *tier, seed, wall, len(viol), nDis, nAss, nKnown)
+			wall = time.Since(start).Seconds()
+			writeEvidence(filepath.Join(*outDir, id+".json"), spec, rep, p, *tier, seed, wall, len(viol), nDis, nAss, nKnown, extra)
 		}
 	}
 	os.Exit(exit)
+}
+
+// thoroughExtras: the other build configurations (one process each) and the seeded-fault
+// self-test of the property's rules on scratch copies. Returns evidence and the number of
+// violations found in the other configurations.
+func thoroughExtras(repo, id, known string, seed int) (map[string]any, int) {
+	self, _ := os.Executable()
+	out := map[string]any{}
+	nViol := 0
+	var cfgs []map[string]any
+	for _, c := range [][2]string{{"darwin", ""}, {"windows", ""}, {"", "verif"}} {
+		tmp, _ := os.CreateTemp("", "klogsa-*.json")
+		tmp.Close()
+		args := []string{"-repo", repo, "-prop", id, "-tier", "quick", "-no-evidence", "-known", known, "-json", tmp.Name()}
+		if c[0] != "" {
+			args = append(args, "-goos", c[0])
+		}
+		if c[1] != "" {
+			args = append(args, "-tags", c[1])
+		}
+		cmd := exec.Command(self, args...)
+		b, err := cmd.CombinedOutput()
+		var doc struct {
+			Obligations []Oblig `json:"obligations"`
+			Violations  int     `json:"violations"`
+		}
+		if raw, rerr := os.ReadFile(tmp.Name()); rerr == nil {
+			json.Unmarshal(raw, &doc)
+		}
+		os.Remove(tmp.Name())
+		cfg := map[string]any{"goos": orDefault(c[0], "host"), "tags": c[1], "obligations": len(doc.Obligations), "violations": doc.Violations}
+		if err != nil || doc.Violations > 0 || len(doc.Obligations) == 0 {
+			nViol++
+			cfg["failed"] = true
+			for _, l := range strings.Split(string(b), "\n") {
+				if strings.HasPrefix(l, "  violated") || strings.HasPrefix(l, "  undecided") || strings.HasPrefix(l, "checker error") {
+					fmt.Printf("  [goos=%s tags=%s] %s\n", orDefault(c[0], "host"), c[1], strings.TrimSpace(l))
+				}
+			}
+		}
+		fmt.Printf("%s [thorough goos=%s tags=%s]: %d obligations, %d violated/undecided\n", id, orDefault(c[0], "host"), orDefault(c[1], "-"), len(doc.Obligations), doc.Violations)
+		cfgs = append(cfgs, cfg)
+	}
+	out["configurations"] = cfgs
+	// seeded-fault self-test (informational: never changes the verdict)
+	verif := filepath.Dir(filepath.Dir(self))
+	tool := filepath.Join(verif, "tools", "selftest.py")
+	if _, err := os.Stat(tool); err == nil {
+		tmp, _ := os.CreateTemp("", "klogsa-st-*.json")
+		tmp.Close()
+		cmd := exec.Command("python3", tool, "--prop", id, "-j", "8", "--json", tmp.Name())
+		cmd.Env = append(os.Environ(), "VERIF_REPO="+repo, fmt.Sprintf("VERIF_SEED=%d", seed))
+		b, _ := cmd.CombinedOutput()
+		var res []map[string]any
+		if raw, rerr := os.ReadFile(tmp.Name()); rerr == nil {
+			json.Unmarshal(raw, &res)
+		}
+		os.Remove(tmp.Name())
+		counts := map[string]int{}
+		var mism []string
+		for _, e := range res {
+			st, _ := e["status"].(string)
+			exp, _ := e["expect"].(string)
+			counts[exp+"->"+st]++
+			if (exp == "violation" && st == "silent") || (exp == "silent" && st == "flagged") {
+				mism = append(mism, fmt.Sprint(e["id"]))
+			}
+		}
+		lines := strings.Split(strings.TrimSpace(string(b)), "\n")
+		fmt.Printf("%s [thorough self-test]: %s\n", id, lines[len(lines)-1])
+		for _, m := range mism {
+			fmt.Printf("SELFTEST-MISMATCH property=%s entry=%s (informational: checker sensitivity, not a verdict on /repo)\n", id, m)
+		}
+		out["selftest"] = map[string]any{"entries": len(res), "outcome_counts": counts, "mismatches": mism,
+			"note": "seeded edits of selftest/corpus.json applied one at a time to scratch copies of the tree under test; expect=violation must be flagged, expect=silent must stay silent; informational"}
+	}
+	return out, nViol
 }
 
 func orDefault(s, d string) string {
@@ -221,7 +309,7 @@ func writeJSON(path string, v any) {
 	}
 }
 
-func writeEvidence(path string, spec *propSpec, rep *Report, p *Prog, tier string, seed int, wall float64, nViol, nDis, nAss, nKnown int) {
+func writeEvidence(path string, spec *propSpec, rep *Report, p *Prog, tier string, seed int, wall float64, nViol, nDis, nAss, nKnown int, extra map[string]any) {
 	distinct := map[string]bool{}
 	perRule := map[string]int{}
 	for _, o := range rep.Obligs {
@@ -270,8 +358,8 @@ func writeEvidence(path string, spec *propSpec, rep *Report, p *Prog, tier strin
 		"notes":      rep.Notes,
 		"exhaustive": true,
 	}
-	if nViol > 0 {
-		cov["discharged"] = nDis + nAss + nKnown
+	for k, v := range extra {
+		cov[k] = v
 	}
 	ev := map[string]any{
 		"property_id": spec.id,
